@@ -20,12 +20,56 @@ build() { # $1 = output name, rest = extra go build flags
   (cd "$VERIF/mc" && go build -modfile="$mod" -tags verif "$@" -o "$BIN/$out" ./cmd/mc) || { echo "ERROR build failed"; exit 2; }
 }
 
+build_sched() { # schedule explorer: library rewritten through an overlay generated from $REPO
+  local tag
+  tag=$(echo "$REPO" | md5sum | cut -c1-8)
+  local mod=$VERIF/.build/go.$tag.mod
+  sed "s#=> /repo#=> $REPO#" "$VERIF/mc/go.mod" > "$mod"
+  (cd "$VERIF/tools/instr" && go build -o "$BIN/instr" .) || { echo "ERROR build of instr failed"; exit 2; }
+  local ov=$VERIF/.build/overlay/$tag
+  rm -rf "$ov"; mkdir -p "$ov"
+  "$BIN/instr" -repo "$REPO" -out "$ov" -shim "$VERIF/shim/vsched" > "$ov/instr.log" 2>&1 || { cat "$ov/instr.log"; echo "ERROR instrumentation failed"; exit 2; }
+  (cd "$VERIF/mc" && go build -modfile="$mod" -tags "verif e3" -overlay "$ov/overlay.json" -o "$BIN/mcs" ./cmd/mcs) || { echo "ERROR build of mcs failed"; exit 2; }
+  export VERIF_INSTR_REPORT="$ov/report.json"
+}
+
 case "${1:-}" in
   setup)
     build mc
+    build_sched
     echo "setup ok"
     ;;
+  C20)
+    build_sched
+    exec "$BIN/mcs" check "$1" "${2:-quick}"
+    ;;
+  C16)
+    build_sched
+    # (c) free-running net: same harness bodies, native build under the race detector
+    tag=$(echo "$REPO" | md5sum | cut -c1-8)
+    (cd "$VERIF/mc" && go build -modfile="$VERIF/.build/go.$tag.mod" -race -tags verif -o "$BIN/mcrace" ./cmd/mcrace) || { echo "ERROR build of mcrace failed"; exit 2; }
+    rounds=150; [ "${2:-quick}" = thorough ] && rounds=3000
+    OUTD=${VERIF_OUT:-$VERIF}; mkdir -p "$OUTD/replays/C16"
+    res=$VERIF/.build/race.$tag.json; log=$OUTD/replays/C16/race-detector-report.txt
+    rm -f "$res"
+    GORACE="halt_on_error=1" timeout 1200 "$BIN/mcrace" $rounds "${VERIF_SEED:-1}" "$res" 2> "$log"; rc=$?
+    if [ $rc -eq 66 ] || grep -q "WARNING: DATA RACE" "$log"; then
+      echo "{\"violation\":\"free-running/data-race\",\"replay\":\"$log\",\"rounds\":$rounds}" > "$res"
+    elif [ $rc -eq 67 ]; then
+      echo "{\"violation\":\"free-running/observation-differs-from-solo-run\",\"replay\":\"$log\",\"rounds\":$rounds}" > "$res"
+    elif [ $rc -ne 0 ]; then
+      echo "ERROR race pass ended with status $rc"; tail -5 "$log"; exit 2
+    else
+      rm -f "$log"
+    fi
+    export VERIF_EXTRA_RESULT="$res"
+    exec "$BIN/mcs" check "$1" "${2:-quick}"
+    ;;
   replay)
+    if grep -qE '"property": *"C(16|20)"' "$2"; then
+      build_sched
+      exec "$BIN/mcs" replay "$2"
+    fi
     build mc
     exec "$BIN/mc" replay "$2"
     ;;
